@@ -794,6 +794,12 @@ func randomSequence(i int) {
 					overflowed = true
 					break
 				}
+				if room, wc := roomOf(t), t.bitString().GetWriteCursor(); room != model.Room() || wc != model.Len() {
+					wit["available_for_write"], wit["write_cursor"], wit["want_room"], wit["want_len"] = room, wc, model.Room(), model.Len()
+					viol("capacity-mismatch@"+o.Op+"/"+t.name, wit)
+					overflowed = true
+					break
+				}
 			} else {
 				overflowed = true
 				R.Count("overflow_writes", 1)
@@ -841,7 +847,7 @@ func readPhase(t *target, model *rb.List, rng *mon.Rng, seq int, wtrace []wop) {
 	nr := rng.Range(1, 80)
 	var rtrace []string
 	for k := 0; k < nr; k++ {
-		op := rng.Intn(14)
+		op := rng.Intn(15)
 		avail := model.Avail()
 		// choose a width mostly within range, sometimes beyond
 		width := func(max int) int {
@@ -1099,6 +1105,30 @@ func readPhase(t *target, model *rb.List, rng *mon.Rng, seq int, wtrace []wop) {
 				mismatch("ReadRemainingBits")
 				return
 			}
+		case 14:
+			// a write in the middle of the reads: the new bits are appended, the read cursor stays, what was
+			// written before still reads the same (overflowing writes are the capacity sections' business)
+			o, bitsv := genWrite(rng)
+			if model.Room() < len(bitsv) {
+				continue
+			}
+			rtrace = append(rtrace, fmt.Sprintf("%s(%d bits)", o.Op, len(bitsv)))
+			wit["write"] = o
+			if !guard(o.Op, wit, func() { err = applyWrite(t, o, bitsv) }) {
+				return
+			}
+			if err != nil {
+				wit["err"] = err.Error()
+				viol("error@"+o.Op+"/fits/interleaved/"+t.name, wit)
+				return
+			}
+			model.WriteBits(bitsv)
+			if got := realBits(t.bitString()); !rb.Equal(got, model.B) {
+				wit["got"], wit["want"] = rb.String(got), rb.String(model.B)
+				viol("content-mismatch@interleaved-write/"+t.name, wit)
+				return
+			}
+			R.Count("interleaved_writes", 1)
 		case 13:
 			if t.cell == nil {
 				continue
@@ -1131,6 +1161,13 @@ func readPhase(t *target, model *rb.List, rng *mon.Rng, seq int, wtrace []wop) {
 		}
 		R.Count("read_ops", 1)
 	}
+}
+
+func roomOf(t *target) int {
+	if t.cell != nil {
+		return t.cell.BitsAvailableForWrite()
+	}
+	return t.bs.BitsAvailableForWrite()
 }
 
 func availOf(t *target, s *boc.BitString) int {
@@ -1410,7 +1447,7 @@ func main() {
 		tier = os.Args[1]
 	}
 	R = mon.Start("C06", tier)
-	R.Rule = "lock-step of boc.BitString/boc.Cell against an ideal []bool model; exhaustive (offset x width x pattern) for ReadUint/PickUint/ReadInt, every offset for byte/bit readers, every big-int width 1..257 x offset 0..7 x boundary values, every writer at every alignment, capacity seams, random write-then-read sequences on bare strings, fresh cells and cells parsed from a BOC; a case is non-trivial when it executed at least one tongo operation whose result was compared with the model; distinct = distinct (operation, length, offset, width, pattern/value) tuples or distinct sequence seeds"
+	R.Rule = "lock-step of boc.BitString/boc.Cell against an ideal []bool model; exhaustive (offset x width x pattern) for ReadUint/PickUint/ReadInt, every offset for byte/bit readers, every big-int width 1..257 x offset 0..7 x boundary values, every writer at every alignment, capacity seams, random write-then-read sequences (with further writes in between the reads) on bare strings, fresh cells and cells parsed from a BOC; random sequences of AddRef/NewRef/NextRef/ResetCounters/CopyRemaining/Refs on built and parsed cells against a slot list with a cursor; Grow and Append beyond the capacity (content, read-back, capacity after Grow); a case is non-trivial when it executed at least one tongo operation whose result was compared with the model; distinct = distinct (operation, length, offset, width, pattern/value) tuples or distinct sequence seeds"
 	R.Assume("the ideal model (harness/ref/bits, a []bool and a cursor) is correct")
 	R.Assume("values that do not fit the requested width, negative widths and widths > 64 (> 257 for big ints), zero-width signed/big integers are outside the stated domain and not generated")
 	R.Assume("after an overflowing write only the previously written prefix is compared (the statement promises nothing about the partial tail)")
@@ -1421,6 +1458,8 @@ func main() {
 	sectionUnaryLim()
 	sectionRandom()
 	sectionCapacity()
+	sectionRefSequences()
+	sectionGrow()
 	sectionFift()
 	R.Sample(map[string]any{"kind": "exhaustive-read", "example": "len=1023 offset=57 width=57 pattern=random -> ReadUint/PickUint/ReadInt vs model"})
 	os.Exit(R.Finish())
